@@ -36,14 +36,31 @@ BUFS = {"p1": ["spot"], "p2": ["spot", "variance"]}
 class World:
     """Two real primaries and their derivatives, driven by abstract operations."""
 
-    def __init__(self, init: Dict[str, Any]) -> None:
-        from pfhedge.instruments import BrownianStock, EuropeanOption, HestonStock
+    def __init__(self, init: Dict[str, Any], variant: int = 0) -> None:
+        from pfhedge.instruments import (AmericanBinaryOption, BrownianStock, CIRRate, EuropeanBinaryOption, EuropeanOption, HestonStock,
+                                         KouJumpStock, LocalVolatilityStock, LookbackOption, MertonJumpStock, RoughBergomiStock, VasicekRate)
         torch.set_default_dtype(DT[init["default"]])
         d = init["declared"]
-        self.prim = {"p1": BrownianStock(dt=0.5, dtype=None if d["p1"] == "none" else DT[d["p1"]]),
-                     "p2": HestonStock(dt=0.5, dtype=None if d["p2"] == "none" else DT[d["p2"]])}
-        self.deriv = {"p1": EuropeanOption(self.prim["p1"], maturity=1.0), "p2": EuropeanOption(self.prim["p2"], maturity=1.0, call=False)}
+        dt1 = None if d["p1"] == "none" else DT[d["p1"]]
+        dt2 = None if d["p2"] == "none" else DT[d["p2"]]
+        # all eight primary kinds and the four option types take their turn (variant = index of the history)
+        one = [BrownianStock, CIRRate, VasicekRate, MertonJumpStock, KouJumpStock][variant % 5]
+        two = [("heston", "variance"), ("rough_bergomi", "variance"), ("local_volatility", "volatility")][variant % 3]
+        if two[0] == "heston":
+            p2 = HestonStock(dt=0.5, dtype=dt2)
+        elif two[0] == "rough_bergomi":
+            p2 = RoughBergomiStock(dt=0.5, dtype=dt2)
+        else:
+            p2 = LocalVolatilityStock(lambda t, s: torch.full_like(s, 0.2), dt=0.5, dtype=dt2)
+        self.second = two[1]                      # real name of the buffer the machine calls "variance"
+        self.prim = {"p1": one(dt=0.5, dtype=dt1), "p2": p2}
+        opts = [EuropeanOption, LookbackOption, AmericanBinaryOption, EuropeanBinaryOption]
+        self.deriv = {"p1": opts[variant % 4](self.prim["p1"], maturity=1.0), "p2": opts[(variant + 1) % 4](self.prim["p2"], maturity=1.0, call=(opts[(variant + 1) % 4] is not EuropeanOption))}   # closed forms of the other puts are not provided
+        self.classes = [type(self.prim["p1"]).__name__, type(p2).__name__, type(self.deriv["p1"]).__name__, type(self.deriv["p2"]).__name__]
         self.backend_gap: Optional[str] = None
+
+    def real(self, p: str, name: str) -> str:
+        return self.second if (p == "p2" and name == "variance") else name
 
     def obj(self, p: str, via: str):
         return self.deriv[p] if via == "derivative" else self.prim[p]
@@ -74,7 +91,7 @@ class World:
                 else:
                     self.prim[p].simulate(n_paths=2, time_horizon=1.0)
             elif op == "RegisterBuffer":
-                self.prim[p].register_buffer(how, torch.ones(2, 3, dtype=DT[d]))
+                self.prim[p].register_buffer(self.real(p, how), torch.ones(2, 3, dtype=DT[d]))
             elif op == "SetDefault":
                 torch.set_default_dtype(DT[d])
             else:
@@ -82,12 +99,13 @@ class World:
             return True, None
         except TypeError as e:
             return False, "TypeError"
-        except RuntimeError as e:
+        except (RuntimeError, NotImplementedError, ValueError) as e:
             msg = str(e)
-            if "not implemented for" in msg or "not supported" in msg.lower():
-                self.backend_gap = msg[:120]
+            eff = self.prim[p].dtype if (op == "Simulate" and self.prim[p].dtype is not None) else torch.get_default_dtype()
+            if "not implemented for" in msg or "not supported" in msg.lower() or (op == "Simulate" and eff in (torch.float16, torch.bfloat16)):
+                self.backend_gap = msg[:120]      # half precision: an operation of the generator is missing on this backend
                 return False, "backend"
-            return False, "RuntimeError:" + msg[:120]
+            return False, type(e).__name__ + ":" + msg[:120]
 
     def project(self) -> Dict[str, Any]:
         out = {"default": NAME[torch.get_default_dtype()], "declared": {}, "bufs": {}}
@@ -96,7 +114,8 @@ class World:
             out["bufs"][p] = {}
             have = dict(prim.named_buffers())
             for b in BUFS[p]:
-                out["bufs"][p][b] = NAME[have[b].dtype] if b in have else "absent"
+                rb = self.real(p, b)
+                out["bufs"][p][b] = NAME.get(have[rb].dtype, str(have[rb].dtype)) if rb in have else "absent"
         return out
 
     def derivative_alias_ok(self) -> bool:
@@ -112,7 +131,7 @@ class World:
 
         for p, prim in self.prim.items():
             have = dict(prim.named_buffers())
-            if set(have) != set(BUFS[p]):
+            if set(have) != {self.real(p, b) for b in BUFS[p]}:
                 continue
             dts = {b.dtype for b in have.values()}
             shapes = {tuple(b.shape) for b in have.values()}
@@ -123,6 +142,9 @@ class World:
             d = self.deriv[p]
             d.list(lambda dd: dd.ul().spot * 2, cost=1e-3)
             feats = ["moneyness", "log_moneyness", "time_to_maturity", "volatility", "variance", "max_moneyness", "zeros", "spot", "underlier_spot"]
+            has_vol = hasattr(type(prim), "volatility") or "volatility" in have
+            if not has_vol:                        # interest-rate models define no volatility
+                feats = [f for f in feats if f not in ("volatility", "variance")]
             things = {"payoff": lambda: d.payoff(), "listed price": lambda: d.spot,
                       "moneyness": lambda: d.moneyness(), "time_to_maturity": lambda: d.time_to_maturity(), "time_to_maturity(0)": lambda: d.time_to_maturity(0),
                       "hedge": lambda: Hedger(SumNet(), feats).compute_hedge(d),
@@ -132,6 +154,8 @@ class World:
                       "loss": lambda: EntropicRiskMeasure()(Hedger(SumNet(), feats).compute_pl(d)),
                       "cash": lambda: EntropicRiskMeasure().cash(Hedger(SumNet(), feats).compute_pl(d)),
                       "BlackScholes hedge": lambda: Hedger(BlackScholes(d), BlackScholes(d).inputs()).compute_hedge(d)}
+            if not has_vol:
+                del things["BlackScholes hedge"]
             from pfhedge.features import Barrier, ModuleOutput, get_feature
             things["barrier"] = lambda: Barrier(1.0).of(d).get(None)
             things["barrier(1)"] = lambda: Barrier(1.0, up=False).of(d).get(1)
@@ -150,12 +174,12 @@ class World:
             d.delist()
 
 
-def replay_history(ctx: Ctx, rec: Dict[str, Any], computed: bool) -> None:
-    w = World(rec["init"])
+def replay_history(ctx: Ctx, rec: Dict[str, Any], computed: bool, variant: int = 0) -> None:
+    w = World(rec["init"], variant)
     for i, ev in enumerate(rec["hist"]):
         ok, err = w.apply(ev)
         ctx.count(n=1)
-        short = {"init": rec["init"], "ops": [[e["op"], e["p"], e["d"], e["how"], e["via"]] for e in rec["hist"][: i + 1]]}
+        short = {"init": rec["init"], "classes": w.classes, "ops": [[e["op"], e["p"], e["d"], e["how"], e["via"]] for e in rec["hist"][: i + 1]]}
         if err == "backend":
             ctx.skip("half precision: backend does not implement simulate/cast; rest of the history not judged", len(rec["hist"]) - i)
             return
@@ -201,7 +225,7 @@ def record_traces(seed: int, n_traces: int, length: int) -> List[Dict[str, Any]]
     traces = []
     for _ in range(n_traces):
         init = {"default": rng.choice(["f32", "f64"]), "declared": {p: rng.choice(["none", "f32", "f64"]) for p in ("p1", "p2")}}
-        w = World(init)
+        w = World(init, len(traces))
         events = []
         for _ in range(length):
             kind = rng.choice(["To", "To", "To", "ToNoArg", "ToInstrument", "ToNonFloat", "Simulate", "Simulate", "RegisterBuffer", "SetDefault"])
@@ -332,14 +356,14 @@ def check(ctx: Ctx) -> None:
         seen = set()
         n_hist = 0
         for k, rec in enumerate(ex.records):
-            replay_history(ctx, rec, computed=(k % 23 == 0))
+            replay_history(ctx, rec, computed=(k % 23 == 0), variant=k)
             n_hist += 1
         for rec in sim.records:
             key = json.dumps(rec, sort_keys=True)
             if key in seen or len(rec["hist"]) < 7:
                 continue
             seen.add(key)
-            replay_history(ctx, rec, computed=True)
+            replay_history(ctx, rec, computed=True, variant=n_hist)
             n_hist += 1
         ctx.sections["histories_replayed"] = n_hist
         ctx.distinct_count_extra = n_hist
